@@ -69,6 +69,9 @@ func (pp *PushPromise) Serialize(fr *FrameHeader) {
 	// 	// TODO: Write padding flag
 	// }
 
+	// The promised stream id comes first (RFC 7540 6.6). Leaving it out made
+	// the receiver read the start of the header block as the id.
+	fr.payload = http2utils.AppendUint32Bytes(fr.payload, pp.stream)
 	fr.payload = append(fr.payload, pp.header...)
 	// TODO: write padding
 }
